@@ -539,14 +539,18 @@ def replay(data):
     print("replay:", json.dumps(first)[:2000])
     inp = first.get("input", {})
     try:
-        if "N" in inp and "k" in inp:
+        if "function" in inp:
+            r = impl_job(inp["function"], inp["args"], inp.get("form", "nd"))
+            print("argument handling of %s%s with argument form %s:" % (inp["function"], inp["args"], inp.get("form")), r["problems"] or "no problem")
+        elif "N" in inp and "k" in inp:
             from quantecon.util.numba import comb_jit
             print("comb_jit(%d,%d) = %d; math.comb = %s" % (inp["N"], inp["k"], comb_jit(inp["N"], inp["k"]),
                   math.comb(inp["N"], inp["k"]) if 0 <= inp["k"] <= inp["N"] else 0))
         elif "m" in inp and "n" in inp:
             r = impl_job("simplex", [inp["m"], inp["n"]])
             exp = sorted(c for c in itertools.product(range(inp["n"] + 1), repeat=inp["m"]) if sum(c) == inp["n"])
-            print("simplex_grid rows:", r["rows"][:12], "\nexpected (lexicographic):", exp[:12], "\nsimplex_index:", r["idxs"][:12])
+            print("simplex_grid rows:", r["rows"][:12], "\nexpected (lexicographic):", exp[:12], "\nsimplex_index:", r["idxs"][:12],
+                  "\nsecond sweep over the same rows:", r["idxs2"][:12], "\ngrid afterwards:", r["rows_after"][:12], r["problems"])
         elif "n" in inp and "k" in inp:
             r = impl_job("walk", [inp["n"], inp["k"]])
             exp = sorted(itertools.combinations(range(inp["n"]), inp["k"]), key=lambda t: t[::-1])
